@@ -465,8 +465,9 @@ func c20GenCase(r *common.Rand) c20Case {
 		name := common.Pick(r, []string{drive.TableName(drive.Parent, "fz2"), "nope", ""})
 		switch r.Intn(4) {
 		case 0:
-			return c20Case{"GetTable " + name, func(ctx context.Context, s *drive.Srv) error {
-				_, err := s.Admin.GetTable(ctx, &btapb.GetTableRequest{Name: name})
+			view := btapb.Table_View(common.Pick(r, []int{0, 1, 2, 3, 4, 5, 99, -1}))
+			return c20Case{fmt.Sprintf("GetTable %s view=%d", name, view), func(ctx context.Context, s *drive.Srv) error {
+				_, err := s.Admin.GetTable(ctx, &btapb.GetTableRequest{Name: name, View: view})
 				return err
 			}}
 		case 1:
@@ -488,8 +489,11 @@ func c20GenCase(r *common.Rand) c20Case {
 		}
 	default:
 		parent := common.Pick(r, []string{drive.Parent, "", "projects/p/instances/i2"})
-		return c20Case{"ListTables " + parent, func(ctx context.Context, s *drive.Srv) error {
-			_, err := s.Admin.ListTables(ctx, &btapb.ListTablesRequest{Parent: parent})
+		view := btapb.Table_View(common.Pick(r, []int{0, 1, 2, 3, 4, 5, 99, -1}))
+		psize := common.Pick(r, []int32{0, 0, 1, -1, 1 << 30})
+		ptok := common.Pick(r, []string{"", "", "x", "\xff\x00"})
+		return c20Case{fmt.Sprintf("ListTables %s view=%d page_size=%d page_token=%q", parent, view, psize, ptok), func(ctx context.Context, s *drive.Srv) error {
+			_, err := s.Admin.ListTables(ctx, &btapb.ListTablesRequest{Parent: parent, View: view, PageSize: psize, PageToken: ptok})
 			return err
 		}}
 	}
@@ -888,12 +892,18 @@ func c20MixRound(run *common.Run, ch *c20Child, round int, scenario int) (int, s
 		return err
 	})
 	worker("gettable", func(ctx context.Context, _ btpb.BigtableClient, admin btapb.BigtableTableAdminClient, n int) error {
-		_, err := admin.GetTable(ctx, &btapb.GetTableRequest{Name: tname})
-		admin.ListTables(ctx, &btapb.ListTablesRequest{Parent: drive.Parent})
+		// every view of both requests (names only, schema, replication, encryption, full): whichever parts of the
+		// table definition an answer carries are marshalled after the handler returned, while the modify worker changes them
+		_, err := admin.GetTable(ctx, &btapb.GetTableRequest{Name: tname, View: btapb.Table_View([]int{0, 4, 2, 1, 3, 5}[n%6])})
+		admin.ListTables(ctx, &btapb.ListTablesRequest{Parent: drive.Parent, View: btapb.Table_View([]int{2, 4, 0, 1, 3, 5}[n%6])})
 		return err
 	})
 	switch scenario {
 	case 0: // schema changes while the schema is fetched
+		worker("listschema", func(ctx context.Context, _ btpb.BigtableClient, admin btapb.BigtableTableAdminClient, n int) error {
+			_, err := admin.ListTables(ctx, &btapb.ListTablesRequest{Parent: drive.Parent, View: btapb.Table_View([]int{4, 2}[n%2])})
+			return err
+		})
 		worker("modify", func(ctx context.Context, _ btpb.BigtableClient, admin btapb.BigtableTableAdminClient, n int) error {
 			id := fmt.Sprint("g", n%5)
 			_, err := admin.ModifyColumnFamilies(ctx, &btapb.ModifyColumnFamiliesRequest{Name: tname, Modifications: []*btapb.ModifyColumnFamiliesRequest_Modification{{Id: id, Mod: &btapb.ModifyColumnFamiliesRequest_Modification_Create{Create: &btapb.ColumnFamily{GcRule: drive.GcToProto(&model.GcRule{Kind: model.GcMaxVersions, N: 2})}}}}})
